@@ -625,6 +625,12 @@ int parse_instruction_propeller2(AsmContext *asm_context, char *instr)
 
     if (lookup_flag(token, &flags) != 0) { continue; }
 
+    if (operand_count >= 3)
+    {
+      print_error_opcount(asm_context, instr);
+      return -1;
+    }
+
     if (IS_TOKEN(token, '+') || IS_TOKEN(token, '-'))
     {
       r = get_inc_dec_p(asm_context, &operands[operand_count], token, instr);
